@@ -612,6 +612,9 @@ impl<TStdlib: Stdlib, TStdIn: Input, TStdOut: Printer, TLpt1: Printer>
                 self.pop_nesting_base(NestingKind::Handler);
                 ctx.opt_next_index = Some(resume_label.address());
                 self.context.pop();
+                // the label is in the main module: the subprogram calls that were
+                // active when the error occurred are abandoned
+                self.leave_all_subprograms();
             }
             Instruction::Throw(interpreter_error) => {
                 return Err(interpreter_error.clone()).with_err_at(&pos);
@@ -725,6 +728,29 @@ impl<TStdlib: Stdlib, TStdIn: Input, TStdOut: Printer, TLpt1: Printer>
         } else {
             None
         }
+    }
+
+    /// Abandons all active subprogram calls (RESUME label continues in the main module).
+    fn leave_all_subprograms(&mut self) {
+        if let Some(index) = self
+            .nesting_bases
+            .iter()
+            .skip(1)
+            .position(|base| base.kind == NestingKind::Call)
+        {
+            let base = self.nesting_bases[index + 1];
+            self.nesting_bases.truncate(index + 1);
+            self.register_stack.truncate(base.registers);
+            self.value_stack.truncate(base.values);
+            self.go_sub_address_stack.truncate(base.go_subs);
+        }
+        self.context.pop_to_main_module();
+        self.stacktrace.clear();
+        self.return_address_stack.clear();
+        self.statement_depths.truncate(1);
+        self.print_state_stack.clear();
+        self.var_path_stack.clear();
+        self.by_ref_stack.clear();
     }
 
     fn push_nesting_base(&mut self, kind: NestingKind) {
